@@ -165,7 +165,20 @@ func (s *Scheduler) Stop(ctx context.Context) error {
 // It is important that jobs are valid, so care is taken to validate the JobConfiguration before
 // it can be scheduled.
 func (s *Scheduler) AddJob(jobConfig *JobConfiguration) error {
-	err := s.verify(jobConfig)
+	// verify normalises the error handlers in place (e.g. it scales retryDelay from seconds to
+	// nanoseconds). Persist the definition as it was handed in, otherwise the scaling is applied
+	// again to the already scaled value every time the stored definition is loaded and re-added
+	// (on every start of the hub, and on pause/resume).
+	storedConfig := &JobConfiguration{}
+	rawConfig, err := json.Marshal(jobConfig)
+	if err != nil {
+		return err
+	}
+	if err = json.Unmarshal(rawConfig, storedConfig); err != nil {
+		return err
+	}
+
+	err = s.verify(jobConfig)
 	if err != nil {
 		return err
 	}
@@ -176,7 +189,7 @@ func (s *Scheduler) AddJob(jobConfig *JobConfiguration) error {
 		return err
 	}
 
-	err = s.Store.StoreObject(server.JobConfigIndex, jobConfig.ID, jobConfig) // store it for the future
+	err = s.Store.StoreObject(server.JobConfigIndex, jobConfig.ID, storedConfig) // store it for the future
 	if err != nil {
 		return err
 	}
